@@ -625,6 +625,26 @@ func c06Exec(run *ev.Run, cs ev.Case) {
 				}
 			}
 		}
+		// the DCMI session commander's method, with a request value whose period was left in place
+		// from an earlier enhanced-mode reading: in normal mode the period bytes are zero whatever it holds
+		if sess, ok := c.conn.(*bmc.V2Session); ok {
+			dc := dcmi.NewSessionCommander(sess)
+			for i, mode := range []dcmi.SystemPowerStatisticsMode{dcmi.SystemPowerStatisticsModeNormal, dcmi.SystemPowerStatisticsModeEnhanced, dcmi.SystemPowerStatisticsModeNormal, dcmi.SystemPowerStatisticsModeNormal} {
+				req := &dcmi.GetPowerReadingReq{Mode: mode, Period: []time.Duration{5 * time.Minute, 5 * time.Minute, 5 * time.Minute, 3 * time.Hour}[i]}
+				want := refcodec.Fields{"mode": uint64(mode), "period": 0}
+				if mode == dcmi.SystemPowerStatisticsModeEnhanced {
+					want["period"] = 0x45
+				}
+				g := genCmd{Cmd: &dcmi.GetPowerReadingCmd{}, NetFn: 0x2c, CmdNo: 0x02, Label: "power", Want: want, OkBody: okBody,
+					Call: func(ctx context.Context, _ bmc.Connection) (ipmi.CompletionCode, error) {
+						_, err := dc.GetPowerReading(ctx, req)
+						return 0, err
+					}}
+				if !do(g, fmt.Sprintf("commander:%d", i)) {
+					return
+				}
+			}
+		}
 		// periods beyond what the byte can express: the encoding saturates at its maximum, 63 days (the
 		// library documents this; C20 enumerates every second up to 65 days), it does not wrap
 		for _, days := range []int{64, 65, 90, 100, 127, 128, 200, 365, 1000, 10000} {
